@@ -24,7 +24,7 @@ RULE = (
     "a reduced alphabet: 12 (deps, kind) descriptors in quick, 16 in thorough): each validator has an enumerated dependency set (every non-empty subset of the fields, read "
     "directly, through a helper method, through a property, through a functools.cached_property, or through a diamond of helper methods shared by the validators), a kind in {plain, validator(field), validator(f, discard=g), validator(discard=g) for "
     "every field g}, an error style in {raise, yield message, yield (get_alias(self).f, message), yield (0, message)}, declared in the class or "
-    "in a base class (also with the helper method it reads overridden in the subclass deserialized); x every datum assigning each field one of {absent, valid, invalid} x every pass/fail vector x aliaser "
+    "in a base class, or in a generic class deserialized as V[int] (also with the helper method it reads overridden in the subclass deserialized); x every datum assigning each field one of {absent, valid, invalid} x every pass/fail vector x aliaser "
     "in {identity, camelCase}. Observed: the exact sequence of validators invoked (each logs its name first), the sorted "
     "error list, whether the object was constructed. Oracle: 25-line reference rule from the property statement; "
     "termination under a watchdog with recursion limit 300. distinct_nontrivial counts distinct (validator descriptors, "
@@ -108,7 +108,7 @@ def class_src(cname: str, vals: List[tuple], inherit: bool) -> str:
         "        return self.c",
     ]
     L = []
-    if inherit:
+    if inherit and inherit != "generic":
         base_ok = all(d in ("a_x", "b") for d in vals[0][1]) and (vals[0][2][1] in (None, "a_x", "b", "a_x>b", "b>a_x"))
         if not base_ok:
             return ""
@@ -128,9 +128,10 @@ def class_src(cname: str, vals: List[tuple], inherit: bool) -> str:
             L += validator_src(*v, by_name=True)
     else:
         L.append("@dataclass")
-        L.append(f"class {cname}:")
+        # "generic": the class is generic and deserialized through its parametrized alias V[int]
+        L.append(f"class {cname}(Generic[TVc]):" if inherit == "generic" else f"class {cname}:")
         L += head
-        L.append("    c: int = field(default=0)")
+        L.append("    c: TVc = field(default=0)" if inherit == "generic" else "    c: int = field(default=0)")
         L += helpers
         for v in vals:
             L += validator_src(*v)
@@ -156,7 +157,7 @@ def reference(vals: List[tuple], vec: Dict[str, str], fails: Dict[str, bool], al
     """(log, sorted errors, constructed?).  Order: declaration order within a class; between a class
     and its bases the property fixes nothing but 'a fixed order' — the library documents MRO order
     (derived class first), which is what is compared."""
-    if inherit:
+    if inherit and inherit != "generic":
         vals = list(vals[1:]) + [vals[0]]
     errors: List[Tuple[tuple, str]] = []
     invalid = set()
@@ -170,7 +171,6 @@ def reference(vals: List[tuple], vec: Dict[str, str], fails: Dict[str, bool], al
     provided = {f for f, s in vec.items() if s == "valid"}
     log = []
     discarded = set()
-    v0_name = vals[-1][0] if inherit else None
     for name, deps, (kind, target), style in vals:
         declared = deps
         deps = set(deps)
@@ -217,6 +217,8 @@ def describe(vals) -> str:
 
 def run_class(mod, cname, vals, inherit, st: infra.Stats):
     cls = getattr(mod, cname)
+    if inherit == "generic":
+        cls = cls[int]
     names = [v[0] for v in vals]
     for alname, aliaser in (("id", lambda s: s), ("camel", to_camel_case)):
         try:
@@ -292,6 +294,12 @@ def class_space(tier: str) -> Iterator[Tuple[List[tuple], bool]]:
     for (d0, k0), (d1, k1) in itertools.product(dk, dk):
         if all(d in ("a_x", "b") for d in d0) and k0[1] in (None, "a_x", "b"):
             yield [("v0", d0, k0, "raise"), ("v1", d1, k1, "raise")], True
+    # generic classes deserialized through a parametrized alias
+    for deps, kind, style in singles:
+        yield [("v0", deps, kind, style)], "generic"
+    for (d0, k0), (d1, k1) in itertools.product(dk, dk):
+        if k0[0] in ("plain", "field") and k1[0] in ("plain", "discard"):
+            yield [("v0", d0, k0, "raise"), ("v1", d1, k1, "yield_path")], "generic"
     # a helper method read by the inherited validator is overridden in the subclass
     for (d0, k0), (d1, k1) in itertools.product(dk, dk):
         if "b" in d0 and all(d in ("a_x", "b") for d in d0) and k0[1] in (None, "a_x", "b") and k1[0] in ("plain", "discard"):
@@ -325,7 +333,7 @@ def work(tier, widx, nworkers, st, extra):
             src.append(s)
             metas.append((cname, vals, inherit))
         try:
-            mod = exec_source(PRELUDE + "import functools\nfrom apischema.objects import get_alias\n" + "\n".join(src))
+            mod = exec_source(PRELUDE + "import functools\nfrom apischema.objects import get_alias\nTVc = TypeVar('TVc')\n" + "\n".join(src))
         except Exception as e:
             st.violation({"signature": {"kind": "harness_error"}, "harness_error": True, "what": "generated module failed", "traceback": repr(e) + "\n" + "\n".join(src)[:1500]})
             batch.clear()
@@ -370,7 +378,7 @@ def replay(path: str) -> int:
     signal.signal(signal.SIGALRM, _alarm)
     vals = eval(v["validators"])
     src = class_src("V0", vals, v["inherit"])
-    mod = exec_source(PRELUDE + "import functools\nfrom apischema.objects import get_alias\n" + src)
+    mod = exec_source(PRELUDE + "import functools\nfrom apischema.objects import get_alias\nTVc = TypeVar('TVc')\n" + src)
     run_class(mod, "V0", vals, v["inherit"], st)
     hits = [x for x in st.violations if x.get("signature") == v.get("signature")]
     for x in hits[:3]:
